@@ -3,13 +3,13 @@ from fractions import Fraction as F
 
 from sim.chart import Cfg, swarm, gen_spec
 from sim.engine import Result, Abandon, fp
-from sim.semrun import Sim, TICK
+from sim.semrun import Sim, TICK, materialise
 from sim.checks import common
 
 ID = 'C05'
 LEVEL = 'exploration'
 BUDGET = {'quick': 20, 'thorough': 240}
-STREAM_ORDER = ['ops', 'guards', 'chart', 'cfg']
+STREAM_ORDER = ['ops', 'guards', 'mat', 'chart', 'cfg']
 RULE = ('well-formed chart drawn per run whose code sends events (with and without delay); the seeded scheduler interleaves 1-3 logical '
         'clients calling queue() with delays from {none,0,1,2,2,5} (ties on purpose), the statechart own sends, clock moves (0, exactly to the '
         'next due time, one tick short of it, far beyond) and execute_once; a two-queue reference model runs in lock-step and the recorded '
@@ -27,7 +27,16 @@ def run(ch, tier):
     res = Result()
     cfg = swarm(ch.s('cfg'), Cfg(sends=True, delays=True, eventless=True), tier)
     sp = gen_spec(ch.s('chart'), cfg)
-    sim = Sim(sp)
+    from sim.probes import SimClock
+    # the interpreter may be created on a clock that is already running late, and events may be queued
+    # (with delays) before its first step
+    start = ch.s('cfg').pick([0.0, 0.0, 7.0, 100.5])
+    sim = Sim(sp, statechart=materialise(sp, ch, res), clock=SimClock(start=start))
+    pre_ops = ch.s('ops')
+    for _ in range(pre_ops.int(0, 2)):
+        nm0 = pre_ops.pick(['ea', 'eb', 'zz'])
+        sim.queue(nm0, pre_ops.pick([None, 1, 2, 5]))
+        res.stats['queued_before_first_step'] += 1
     cfp = fp(sp.fingerprint())
     ops = ch.s('ops')
     gs = ch.s('guards')
@@ -81,7 +90,7 @@ def run(ch, tier):
                 if info['due'] == r.T and info['queued_at_step'] < r.k and info['due'] != 0:
                     res.stats['delayed_event_due_exactly_at_step_time'] += 1
         else:
-            if head is not None and not eventless:
+            if head is not None and not eventless and not r.init:      # the initialisation step consumes nothing by design
                 return res.fail('due-event-not-consumed', 'step at %s consumed nothing although uid %s (%s) was due since %s and no eventless '
                                 'transition fired' % (float(r.T), head[2], head[3], float(head[0])), **ctx) and r
             if head is not None:
